@@ -144,6 +144,12 @@ def fieldIndex (name : List UInt8) : List Field → Nat → Option Nat
   | [], _ => none
   | .mk n _ _ :: rest, k => if n = name then some k else fieldIndex name rest (k+1)
 
+/-- the type of the field with index `k` -/
+def fieldTy (fields : List Field) (k : Nat) : Ty :=
+  match fields[k]? with
+  | some (.mk _ ty _) => ty
+  | none => .unit
+
 /-- what a derived struct does with a field that never came -/
 def missing (fl : Field) : Option Val :=
   match fl with
@@ -442,7 +448,7 @@ def structLoop : Nat → List Field → Bool → Buf → Nat → Bool → List (
             else
               (match parseObjectClo buf e1 with
                | .ok c =>
-                 (match de f (match fields[k]? with | some (.mk _ ty _) => ty | none => .unit) buf c with
+                 (match de f (fieldTy fields k) buf c with
                   | .ok x e => structLoop f fields deny buf e false (slots.set k (some x))
                   | .err => .err
                   | .fuel => .fuel)
